@@ -556,6 +556,7 @@ def v2TxnChecks (ms : Mid) (t : Txn2) (maxWeight : Nat) : VM Unit :=
   if ms.base.child < ms.base.P.v2Allow then reject "v2 transactions are not allowed until v2 hardfork begins"
   else do
     validateV2CurrencyOverflow t
+    validateV2TaxPool ms t
     if t.weight = 0 then reject "transactions cannot be empty"
     else if t.weight > maxWeight then reject "transaction exceeds maximum block weight"
     else do
@@ -572,11 +573,11 @@ theorem validateV2Transaction_eq (ms : Mid) (t : Txn2) (maxWeight : Nat) :
 
 theorem validateV2Transaction_ok_iff (ms : Mid) (t : Txn2) (maxWeight : Nat) :
     validateV2Transaction ms t maxWeight = .ok () ↔
-      (ms.base.P.v2Allow ≤ ms.base.child ∧ validateV2CurrencyOverflow t = .ok () ∧ t.weight ≠ 0 ∧
+      (ms.base.P.v2Allow ≤ ms.base.child ∧ (validateV2CurrencyOverflow t = .ok () ∧ validateV2TaxPool ms t = .ok ()) ∧ t.weight ≠ 0 ∧
        t.weight ≤ maxWeight ∧ validateV2Siacoins ms t = .ok () ∧ validateV2Siafunds ms t = .ok () ∧
        validateV2FileContracts ms t = .ok () ∧ t.attsOk = true ∧ validateFoundationUpdate ms t = .ok ()) := by
   rw [validateV2Transaction_eq]
   unfold v2TxnChecks
-  simp only [ite_reject_ok_iff, seq_unit_ok_iff, Nat.not_lt, Decidable.not_not, ne_eq]
+  simp only [ite_reject_ok_iff, seq_unit_ok_iff, Nat.not_lt, Decidable.not_not, ne_eq, and_assoc]
 
 end Sia.Ledger
